@@ -112,6 +112,11 @@ const (
 	FaultCrash
 	// FaultCrashAfter: the effect happens, then the process dies.
 	FaultCrashAfter
+	// FaultStatus*: the API server answers with a status error (no effect) of the given kind.
+	FaultStatusInternal
+	FaultStatusTooManyRequests
+	FaultStatusUnavailable
+	FaultStatusTimeout
 )
 
 // CrashSentinel is the panic value used to model a process crash.
